@@ -47,12 +47,12 @@ def r2_flatten(rule, root=None):
     ok = False
     if len(ms) == 1:
         for arm in ms[0]["arms"]:
-            pt = A.unparse(arm["pat"]).replace(" ", "")
+            pt = A.ftxt(arm["pat"])
             if pt.startswith("TreeOp::RemapAffine{"):
                 names = {f["name"]: A.binding_name(f["pat"]) for f in arm["pat"]["fields"]}
                 st = A.strip(arm["body"])
                 if st.get("k") == "Struct":
-                    f = {x["name"]: A.unparse(x["e"]).replace(" ", "") for x in st["fields"]}
+                    f = {x["name"]: A.ftxt(x["e"]) for x in st["fields"]}
                     inner = names.get("mat")
                     param = [A.binding_name(i["pat"]) for i in fn["sig"]["inputs"] if "pat" in i][0]
                     if f.get("target") == "%s.clone()" % names.get("target") and f.get("mat") == "(%s*%s)" % (inner, param):
@@ -65,14 +65,14 @@ def r2_flatten(rule, root=None):
     else:
         rule.bad("flatten|shape", "remap_affine no longer has a flattening arm for an already-affine tree", A.where(fn))
     # the non-affine arm wraps self
-    t = A.unparse(fn["body"]).replace(" ", "")
+    t = A.ftxt(fn["body"])
     if "_=>TreeOp::RemapAffine{target:self.0.clone(),mat:mat}" in t:
         rule.ok("a non-affine tree is wrapped with the given matrix")
     else:
         rule.bad("wrap", "remap_affine must wrap a non-affine tree as RemapAffine { target: self, mat }", A.where(fn))
     fn = A.find_fn(TREE, "remap_xyz", self_ty="Tree", root=root)
     st = [s for s in A.find(fn["body"], "Struct")]
-    f = {x["name"]: A.unparse(x["e"]).replace(" ", "") for x in st[0]["fields"]} if st else {}
+    f = {x["name"]: A.ftxt(x["e"]) for x in st[0]["fields"]} if st else {}
     if f == {"target": "self.0.clone()", "x": "x.0", "y": "y.0", "z": "z.0"}:
         rule.ok("remap_xyz stores (x, y, z) under their own names", file=TREE, line=fn["ln"])
     else:
@@ -89,7 +89,7 @@ def r3_frames(rule, root=None):
     blocks = [b for b in A.find(fn["body"], "Block")]
     n_push = 0
     for b in blocks:
-        seq = [A.unparse(s).replace(" ", "") for s in b["stmts"]]
+        seq = [A.ftxt(s) for s in b["stmts"]]
         for i, t in enumerate(seq):
             for vec, pop in (("axes", "Action::Pop"), ("affine", "Action::PopAffine")):
                 if t.startswith("%s.push(" % vec):
@@ -109,18 +109,18 @@ def r3_frames(rule, root=None):
                         rule.ok("%s.push paired with %s pushed before Down(target)" % (vec, pop), file=CTX, line=b["stmts"][i]["ln"])
     if n_push < 3:
         rule.lost("the three frame pushes in Context::import (found %d)" % n_push)
-    t = A.unparse(fn["body"]).replace(" ", "")
+    t = A.ftxt(fn["body"])
     # RemapAffine arm: Down(target) after the if/else
     for arm in A.find(fn["body"], "Arm"):
-        pt = A.unparse(arm["pat"]).replace(" ", "")
+        pt = A.ftxt(arm["pat"])
         if pt.startswith("TreeOp::RemapAffine{target:target"):
-            seq = [A.unparse(s).replace(" ", "") for s in A.stmts_of(arm["body"])]
+            seq = [A.ftxt(s) for s in A.stmts_of(arm["body"])]
             if seq and seq[-1] == "todo.push(Action::Down(target));":
                 rule.ok("RemapAffine: the target is imported inside the pushed frame")
             else:
                 rule.bad("frames|affine-target", "the RemapAffine arm must push Down(target) last", A.where(fn, arm))
     # the matrix may be deferred onto the affine stack only when the target is itself an affine remap
-    defer = [i for i in A.find(fn["body"], "If") if any("affine.push(" in A.unparse(s).replace(" ", "") for s in i["then"]["stmts"])]
+    defer = [i for i in A.find(fn["body"], "If") if any("affine.push(" in A.ftxt(s) for s in i["then"]["stmts"])]
     if len(defer) != 1:
         rule.lost("the `if matches!(target, RemapAffine)` deferral in Context::import")
     else:
@@ -130,7 +130,7 @@ def r3_frames(rule, root=None):
             for p in A.flatten_or(c["pat"]):
                 segs, _ = A.pat_variant(p)
                 vs.add(segs[-1] if segs else "?")
-        scr = A.unparse(c.get("expr")).replace(" ", "") if c.get("k") == "Macro" else ""
+        scr = A.ftxt(c.get("expr")) if c.get("k") == "Macro" else ""
         if vs == {"RemapAffine"} and scr == "&**target" and not c.get("guard"):
             rule.ok("a pending matrix is deferred only onto a directly nested affine remap", file=CTX, line=defer[0]["ln"])
         else:
@@ -151,7 +151,7 @@ def r4_cache_keys(rule, root=None):
     n = 0
     for c in A.find(fn["body"], "MethodCall"):
         if A.ident(A.strip(c["recv"])) == "seen" and c["method"] in ("get", "insert", "entry", "contains_key"):
-            k = A.unparse(A.strip(c["args"][0])).replace(" ", "").lstrip("&")
+            k = A.ftxt(A.strip(c["args"][0])).lstrip("&")
             n += 1
             if k == key:
                 rule.ok("seen.%s keyed by (current frame, node pointer)" % c["method"], file=CTX, line=c["ln"])
@@ -160,7 +160,7 @@ def r4_cache_keys(rule, root=None):
     if n < 3:
         rule.lost("cache accesses in Context::import (found %d)" % n)
     # cached results are only reused for Unary / Binary nodes (whose value is a function of the frame)
-    t = A.unparse(fn["body"]).replace(" ", "")
+    t = A.ftxt(fn["body"])
     if t.count("matches!(t.as_ref(),TreeOp::Unary(..) | TreeOp::Binary(..))") + t.count("matches!(t.as_ref(),TreeOp::Unary(..)|TreeOp::Binary(..))") >= 2:
         rule.ok("cache lookups and inserts are restricted to Unary / Binary nodes")
     else:
@@ -169,14 +169,14 @@ def r4_cache_keys(rule, root=None):
 
 def r5_axis_roles(rule, root=None):
     fn = _import(root)
-    ms = [m for m in A.find(fn["body"], "Match") if any(A.unparse(a["pat"]).replace(" ", "") == "Var::X" for a in m["arms"])]
+    ms = [m for m in A.find(fn["body"], "Match") if any(A.ftxt(a["pat"]) == "Var::X" for a in m["arms"])]
     if len(ms) != 1:
         rule.lost("match *s { Var::X => axes.0 .. } in Context::import")
     else:
         want = {"Var::X": "axes.0", "Var::Y": "axes.1", "Var::Z": "axes.2"}
         for arm in ms[0]["arms"]:
-            pt = A.unparse(arm["pat"]).replace(" ", "")
-            tt = A.unparse(arm["body"]).replace(" ", "")
+            pt = A.ftxt(arm["pat"])
+            tt = A.ftxt(arm["body"])
             if pt in want:
                 if tt == want[pt]:
                     rule.ok("import: %s reads %s of the current frame" % (pt, tt), file=CTX, line=arm["ln"])
@@ -187,8 +187,8 @@ def r5_axis_roles(rule, root=None):
                     rule.ok("import: free variables bypass the frame")
                 else:
                     rule.bad("axis|V", "free variables must be imported as themselves (`self.var(v)`), found `%s`" % tt, A.where(fn, arm))
-        scr = A.unparse(ms[0]["e"]).replace(" ", "")
-    t = A.unparse(fn["body"]).replace(" ", "")
+        scr = A.ftxt(ms[0]["e"])
+    t = A.ftxt(fn["body"])
     if "letaxes=axes.last().unwrap();" in t:
         rule.ok("inputs read the innermost frame")
     else:
@@ -200,7 +200,7 @@ def r5_axis_roles(rule, root=None):
         rule.bad("axis|remapaxes", "the RemapAxes frame must be built as (x, y, z) from the three popped results", A.where(fn))
     # affine rows
     loops = [l for l in A.find(fn["body"], "For") if "mat[" in A.unparse(l["body"])]
-    if len(loops) != 1 or A.unparse(loops[0]["iter"]).replace(" ", "") != "0..3":
+    if len(loops) != 1 or A.ftxt(loops[0]["iter"]) != "0..3":
         rule.lost("`for i in 0..3` affine row loop in Context::import")
     else:
         ivar = A.binding_name(loops[0]["pat"])
@@ -237,7 +237,7 @@ def r5_axis_roles(rule, root=None):
                     env.vars[A.binding_name(s["pat"])] = conv(s["init"])
                 else:
                     e = A.strip(A.stmt_expr(s))
-                    if e.get("k") == "Assign" and A.unparse(e["left"]).replace(" ", "") == "out[%s]" % ivar:
+                    if e.get("k") == "Assign" and A.ftxt(e["left"]) == "out[%s]" % ivar:
                         r = A.strip(e["right"])
                         out = conv(r["args"][0]) if r.get("k") == "Call" and A.is_path(r["func"], "Some") else None
             want = env.sym("m0") * env.sym("x") + env.sym("m1") * env.sym("y") + env.sym("m2") * env.sym("z") + env.sym("m3")
